@@ -448,7 +448,11 @@ def positive_guards(mod: Module, fn: ast.AST, node: ast.AST) -> list[ast.AST]:
     A top-level `and` is split into its operands."""
     out: list[ast.AST] = []
 
-    def conj(t: ast.AST, positive: bool) -> None:
+    def conj(t: ast.AST, positive: bool, depth: int = 0) -> None:
+        # a flag variable stands for the test it was bound to (`is_literal = isinstance(o, Literal)` ... `x if is_literal else y`)
+        v = flag_value(mod, fn, t, node) if depth < 4 else None
+        if v is not None:
+            conj(v, positive, depth + 1)
         if positive:
             if isinstance(t, ast.BoolOp) and isinstance(t.op, ast.And):
                 for v in t.values:
@@ -485,6 +489,38 @@ def positive_guards(mod: Module, fn: ast.AST, node: ast.AST) -> list[ast.AST]:
             break
         child = p
     return out
+
+
+def flag_value(mod: Module, fn: ast.AST, flag: ast.AST, use: ast.AST) -> Optional[ast.AST]:
+    """the expression whose value the local name `flag` still stands for where `use` is evaluated: `flag` is bound exactly once in fn, by a statement that
+    precedes (an enclosing statement of) `use` in the same block or an enclosing block - so the binding dominates the use - and nothing the bound expression reads
+    is bound again at or after that statement.  None otherwise (not a name, a parameter, bound twice, bound on some paths only, operands re-bound)."""
+    v = single_local_def(fn, flag)
+    if v is None:
+        return None
+    st = mod.parent.get(id(v))
+    if not isinstance(st, (ast.Assign, ast.AnnAssign)):
+        return None
+    dominates = False
+    child = use
+    for p in mod.parents(use):
+        for field in ("body", "orelse", "finalbody"):
+            blk = getattr(p, field, None)
+            if isinstance(blk, list) and any(child is s for s in blk) and any(st is s for s in blk):
+                dominates = next(i for i, x in enumerate(blk) if x is st) < next(i for i, x in enumerate(blk) if x is child)
+        if dominates or p is fn:
+            break
+        child = p
+    if not dominates:
+        return None
+    read = {x.id for x in ast.walk(v) if isinstance(x, ast.Name)}
+    at = (st.lineno, st.col_offset)
+    for x in own_nodes(fn, include_nested=True):
+        if isinstance(x, ast.Name) and x.id in read and isinstance(x.ctx, (ast.Store, ast.Del)) and (x.lineno, x.col_offset) >= at:
+            return None
+        if isinstance(x, (ast.Global, ast.Nonlocal)) and read & set(x.names):
+            return None
+    return v
 
 
 def bound_arg(call: ast.Call, callee: ast.AST, param: str, bound_method: bool) -> Optional[ast.AST]:
@@ -683,7 +719,7 @@ def replace_calls(e: ast.AST) -> tuple:
     return cur, pairs, calls
 
 
-def const_translation_table(repo: Repo, mod: Module, fn: Optional[ast.AST], e: ast.AST, depth: int = 0) -> Optional[list]:
+def _table_as_written(repo: Repo, mod: Module, fn: Optional[ast.AST], e: ast.AST, depth: int = 0) -> Optional[list]:
     """[(character, replacement text or None)] of a constant table handed to str.translate: str.maketrans({..}) / str.maketrans(x, y[, z]) of constants, a dict
     display keyed by code points (int constants / ord('c')), or a local / module-level name bound once to one.  None: not foldable."""
     if depth > 6:
@@ -692,12 +728,12 @@ def const_translation_table(repo: Repo, mod: Module, fn: Optional[ast.AST], e: a
         if fn is not None:
             v = single_local_def(fn, e)
             if v is not None:
-                return const_translation_table(repo, mod, fn, v, depth + 1)
+                return _table_as_written(repo, mod, fn, v, depth + 1)
             a = fn.args  # type: ignore[attr-defined]
             if e.id in {x.arg for x in a.posonlyargs + a.args + a.kwonlyargs} or any(isinstance(n, ast.Name) and n.id == e.id and isinstance(n.ctx, ast.Store) for n in own_nodes(fn)):
                 return None  # a parameter, or a local this reading does not follow
         b = _module_binding(repo, mod, e.id)
-        return const_translation_table(repo, b[0], None, b[1], depth + 1) if b else None
+        return _table_as_written(repo, b[0], None, b[1], depth + 1) if b else None
 
     def key(k: Optional[ast.AST], ordinals_only: bool) -> Optional[str]:
         if isinstance(k, ast.Constant) and isinstance(k.value, int) and not isinstance(k.value, bool) and 0 <= k.value <= MAXCP:
@@ -750,6 +786,277 @@ def const_translation_table(repo: Repo, mod: Module, fn: Optional[ast.AST], e: a
     return None
 
 
+# A table can be written in many ways (a dict display, dict(pairs), dict(zip(..)), a comprehension over a module-level tuple of pairs, a union of two
+# tables ...).  What the rule needs is the MAPPING the expression denotes, so the expression is folded: a small evaluator of constant expressions - constants,
+# displays, comprehensions over constants, names bound once (locally or at module level, never mutated) and a closed list of side-effect-free builtins applied
+# to such values.  Only analyser-side Python values are computed; nothing of the analysed package is imported or called.
+class _NotConstant(Exception):
+    pass
+
+
+_MUTATORS = {"update", "pop", "popitem", "setdefault", "clear", "append", "extend", "insert", "remove", "sort", "reverse", "add", "discard", "__setitem__", "__delitem__"}
+
+
+def _mutated(mod: Module, name: str) -> bool:
+    """is the object bound to the module-level name changed in place anywhere in the module (item store / delete, augmented assignment, a mutating method)?"""
+    for n in ast.walk(mod.tree):
+        if isinstance(n, (ast.Subscript, ast.Attribute)) and isinstance(n.ctx, (ast.Store, ast.Del)) and isinstance(n.value, ast.Name) and n.value.id == name:
+            return True
+        if isinstance(n, ast.AugAssign) and any(isinstance(x, ast.Name) and x.id == name for x in ast.walk(n.target)):
+            return True
+        if isinstance(n, ast.Call) and isinstance(n.func, ast.Attribute) and n.func.attr in _MUTATORS and isinstance(n.func.value, ast.Name) and n.func.value.id == name:
+            return True
+        if isinstance(n, ast.Global) and name in n.names:
+            return True
+    return False
+
+
+_PURE_BUILTINS = {"dict": dict, "list": list, "tuple": tuple, "set": set, "frozenset": frozenset, "sorted": sorted, "reversed": lambda x: list(reversed(x)),
+                  "zip": lambda *a: list(zip(*a)), "enumerate": lambda *a: list(enumerate(*a)), "ord": ord, "chr": chr, "str": str, "len": len, "int": int,
+                  "min": min, "max": max}
+_PURE_METHODS = {dict: {"items", "keys", "values", "get", "copy"}, str: {"join", "upper", "lower", "format", "split", "strip", "replace", "encode", "maketrans"},
+                 tuple: {"index", "count"}, list: {"index", "count", "copy"}, frozenset: {"union"}, set: {"union", "copy"}, bytes: {"decode"}}
+_CONST_TYPES = (str, bytes, int, float, bool, type(None))
+
+
+class ConstFolder:
+    def __init__(self, repo: Repo, budget: int = 20000):
+        self.repo, self.budget = repo, budget
+
+    def fold(self, mod: Module, fn: Optional[ast.AST], e: ast.AST):
+        """the value of e, or _NotConstant"""
+        return self._ev(mod, fn, e, {}, 0)
+
+    def _name(self, mod: Module, fn: Optional[ast.AST], e: ast.Name, env: dict, depth: int):
+        if e.id in env:
+            return env[e.id]
+        if fn is not None:
+            v = single_local_def(fn, e)
+            if v is not None:
+                return self._ev(mod, fn, v, {}, depth + 1)
+            a = fn.args  # type: ignore[attr-defined]
+            if e.id in {x.arg for x in a.posonlyargs + a.args + a.kwonlyargs} or (a.vararg and a.vararg.arg == e.id) or (a.kwarg and a.kwarg.arg == e.id) \
+                    or any(isinstance(n, ast.Name) and n.id == e.id and isinstance(n.ctx, ast.Store) for n in own_nodes(fn)):
+                raise _NotConstant(e.id)
+        b = _module_binding(self.repo, mod, e.id)
+        if not b or _mutated(mod, e.id):
+            raise _NotConstant(e.id)
+        if b[0] is not mod:  # imported: the name it is bound to where it is defined must not be changed in place there either
+            for st in b[0].tree.body:
+                if getattr(st, "value", None) is b[1] and any(_mutated(b[0], x.id) for t in _targets(st) for x in ast.walk(t) if isinstance(x, ast.Name)):
+                    raise _NotConstant(e.id)
+        return self._ev(b[0], None, b[1], {}, depth + 1)
+
+    def _bind(self, target: ast.AST, value, env: dict) -> None:
+        if isinstance(target, ast.Name):
+            env[target.id] = value
+        elif isinstance(target, (ast.Tuple, ast.List)) and not any(isinstance(t, ast.Starred) for t in target.elts):
+            vals = list(value)
+            if len(vals) != len(target.elts):
+                raise _NotConstant("unpack")
+            for t, v in zip(target.elts, vals):
+                self._bind(t, v, env)
+        else:
+            raise _NotConstant("target")
+
+    def _comp(self, mod, fn, gens: list, env: dict, depth: int, emit) -> None:
+        if not gens:
+            emit(env)
+            return
+        g = gens[0]
+        if g.is_async:
+            raise _NotConstant("async")
+        for item in self._iter(self._ev(mod, fn, g.iter, env, depth + 1)):
+            env2 = dict(env)
+            self._bind(g.target, item, env2)
+            if all(self._ev(mod, fn, c, env2, depth + 1) for c in g.ifs):
+                self._comp(mod, fn, gens[1:], env2, depth, emit)
+
+    @staticmethod
+    def _iter(v):
+        if isinstance(v, (str, bytes, tuple, list, dict, set, frozenset)):
+            return list(v)
+        raise _NotConstant("not iterable")
+
+    def _ev(self, mod: Module, fn: Optional[ast.AST], e: ast.AST, env: dict, depth: int):
+        self.budget -= 1
+        if self.budget < 0 or depth > 40:
+            raise _NotConstant("budget")
+        ev = lambda x, env_=env: self._ev(mod, fn, x, env_, depth + 1)  # noqa: E731
+        if isinstance(e, ast.Constant):
+            if isinstance(e.value, _CONST_TYPES):
+                return e.value
+            raise _NotConstant("constant")
+        if isinstance(e, ast.Name):
+            if not isinstance(e.ctx, ast.Load):
+                raise _NotConstant("store")
+            return self._name(mod, fn, e, env, depth)
+        if isinstance(e, (ast.Tuple, ast.List, ast.Set)):
+            out: list = []
+            for x in e.elts:
+                if isinstance(x, ast.Starred):
+                    out.extend(self._iter(ev(x.value)))
+                else:
+                    out.append(ev(x))
+            return tuple(out) if isinstance(e, ast.Tuple) else out if isinstance(e, ast.List) else set(out)
+        if isinstance(e, ast.Dict):
+            d: dict = {}
+            for k, v in zip(e.keys, e.values):
+                if k is None:
+                    inner = ev(v)
+                    if not isinstance(inner, dict):
+                        raise _NotConstant("**")
+                    d.update(inner)
+                else:
+                    d[ev(k)] = ev(v)
+            return d
+        if isinstance(e, ast.JoinedStr):
+            parts = []
+            for v in e.values:
+                if isinstance(v, ast.FormattedValue):
+                    if v.format_spec is not None or v.conversion not in (-1, 115):
+                        raise _NotConstant("format spec")
+                    parts.append(str(ev(v.value)))
+                else:
+                    parts.append(str(ev(v)))
+            return "".join(parts)
+        if isinstance(e, ast.IfExp):
+            return ev(e.body) if ev(e.test) else ev(e.orelse)
+        if isinstance(e, ast.BoolOp):
+            val = None
+            for x in e.values:
+                val = ev(x)
+                if bool(val) != isinstance(e.op, ast.And):
+                    return val
+            return val
+        if isinstance(e, ast.UnaryOp):
+            v = ev(e.operand)
+            if isinstance(e.op, ast.Not):
+                return not v
+            if isinstance(e.op, ast.USub) and isinstance(v, (int, float)):
+                return -v
+            raise _NotConstant("unary")
+        if isinstance(e, ast.Compare):
+            left = ev(e.left)
+            for op, right_e in zip(e.ops, e.comparators):
+                right = ev(right_e)
+                try:
+                    r = {ast.Eq: lambda a, b: a == b, ast.NotEq: lambda a, b: a != b, ast.In: lambda a, b: a in b, ast.NotIn: lambda a, b: a not in b,
+                         ast.Lt: lambda a, b: a < b, ast.LtE: lambda a, b: a <= b, ast.Gt: lambda a, b: a > b, ast.GtE: lambda a, b: a >= b,
+                         ast.Is: lambda a, b: a is b, ast.IsNot: lambda a, b: a is not b}[type(op)](left, right)
+                except (TypeError, KeyError):
+                    raise _NotConstant("compare") from None
+                if not r:
+                    return False
+                left = right
+            return True
+        if isinstance(e, ast.BinOp):
+            a, b = ev(e.left), ev(e.right)
+            try:
+                if isinstance(e.op, ast.Add) and type(a) is type(b) and isinstance(a, (str, bytes, tuple, list, int)):
+                    return a + b
+                if isinstance(e.op, ast.BitOr) and type(a) is type(b) and isinstance(a, (dict, set, frozenset)):
+                    return a | b
+                if isinstance(e.op, ast.Mod) and isinstance(a, str):
+                    return a % b
+                if isinstance(e.op, ast.Mult) and isinstance(a, (str, tuple, list)) and isinstance(b, int) and 0 <= b <= 64:
+                    return a * b
+            except (TypeError, ValueError):
+                pass
+            raise _NotConstant("binop")
+        if isinstance(e, ast.Subscript):
+            v, k = ev(e.value), (None if isinstance(e.slice, ast.Slice) else ev(e.slice))
+            if isinstance(e.slice, ast.Slice):
+                lo, hi, st = [None if x is None else ev(x) for x in (e.slice.lower, e.slice.upper, e.slice.step)]
+                k = slice(lo, hi, st)
+                if not isinstance(v, (str, bytes, tuple, list)):
+                    raise _NotConstant("slice")
+            try:
+                return v[k]
+            except Exception:
+                raise _NotConstant("subscript") from None
+        if isinstance(e, (ast.ListComp, ast.SetComp, ast.GeneratorExp)):
+            acc: list = []
+            self._comp(mod, fn, e.generators, env, depth, lambda env_: acc.append(self._ev(mod, fn, e.elt, env_, depth + 1)))
+            return set(acc) if isinstance(e, ast.SetComp) else acc
+        if isinstance(e, ast.DictComp):
+            dd: dict = {}
+
+            def put(env_):
+                k_ = self._ev(mod, fn, e.key, env_, depth + 1)
+                dd[k_] = self._ev(mod, fn, e.value, env_, depth + 1)
+            self._comp(mod, fn, e.generators, env, depth, put)
+            return dd
+        if isinstance(e, ast.Call):
+            if any(isinstance(a_, ast.Starred) for a_ in e.args) or any(k.arg is None for k in e.keywords):
+                raise _NotConstant("star args")
+            f = e.func
+
+            def unshadowed(name: str) -> bool:
+                return name not in env and not (fn is not None and local_defs(fn, name)) and _module_binding(self.repo, mod, name) is None and name not in mod.defs
+
+            if isinstance(f, ast.Name) and f.id == "map" and unshadowed("map") and len(e.args) >= 2 and not e.keywords and isinstance(e.args[0], ast.Name) \
+                    and e.args[0].id in _PURE_BUILTINS and unshadowed(e.args[0].id):
+                its = [self._iter(ev(a_)) for a_ in e.args[1:]]
+                try:
+                    return [_PURE_BUILTINS[e.args[0].id](*xs) for xs in zip(*its)]
+                except Exception:
+                    raise _NotConstant("map failed") from None
+            args = [ev(a_) for a_ in e.args]
+            kw = {k.arg: ev(k.value) for k in e.keywords}
+            try:
+                if isinstance(f, ast.Name) and f.id in _PURE_BUILTINS and unshadowed(f.id):
+                    if kw and f.id != "dict":
+                        raise _NotConstant("keywords")
+                    r = _PURE_BUILTINS[f.id](*args, **kw)
+                    return list(r) if f.id in ("sorted",) else r
+                if isinstance(f, ast.Attribute):
+                    if isinstance(f.value, ast.Name) and f.value.id in ("str", "bytes") and f.attr == "maketrans" and not kw and f.value.id not in env \
+                            and _module_binding(self.repo, mod, f.value.id) is None:
+                        return (str if f.value.id == "str" else bytes).maketrans(*args)
+                    recv = ev(f.value)
+                    if any(isinstance(recv, t) and f.attr in names for t, names in _PURE_METHODS.items()) and not kw:
+                        r = getattr(recv, f.attr)(*args)
+                        return list(r) if f.attr in ("items", "keys", "values") else r
+            except _NotConstant:
+                raise
+            except Exception:
+                raise _NotConstant("call failed") from None
+            raise _NotConstant("call")
+        raise _NotConstant(type(e).__name__)
+
+
+def denoted_translation_table(repo: Repo, mod: Module, fn: Optional[ast.AST], e: ast.AST) -> Optional[list]:
+    """[(character, replacement text or None)] of the mapping that the argument of str.translate DENOTES, however it is written (see ConstFolder).
+    str.translate looks code points up: a key that is not an int never matches and does not count.  None: not a constant mapping."""
+    try:
+        v = ConstFolder(repo).fold(mod, fn, e)
+    except (_NotConstant, RecursionError):
+        return None
+    if not isinstance(v, dict):
+        return None
+    out = []
+    for k, r in v.items():
+        if isinstance(k, bool) or not isinstance(k, int) or not 0 <= k <= MAXCP:
+            continue
+        if r is None or isinstance(r, str):
+            out.append((chr(k), r))
+        elif isinstance(r, int) and not isinstance(r, bool) and 0 <= r <= MAXCP:
+            out.append((chr(k), chr(r)))
+        else:
+            return None
+    return out
+
+
+def const_translation_table(repo: Repo, mod: Module, fn: Optional[ast.AST], e: ast.AST) -> Optional[list]:
+    """the table handed to str.translate, as [(character, replacement text or None)]: read off the way it is written where that is one of the plain spellings
+    (which also shows a key written twice), else the mapping the expression denotes"""
+    if isinstance(e, ast.Name) and not (fn is not None and local_defs(fn, e.id)) and _mutated(mod, e.id):
+        return None  # a module-level table that is changed in place after it was built: what it maps when translate() runs is not what its binding says
+    t = _table_as_written(repo, mod, fn, e)
+    return t if t is not None else denoted_translation_table(repo, mod, fn, e)
+
+
 class EscapeMap:
     """how a text is escaped before it is put between quotes: a chain of str.replace calls (applied one after the other: the order matters) or one
     str.translate with a constant table (one pass over the text: an escape is never escaped again)"""
@@ -780,3 +1087,69 @@ def escape_map(repo: Repo, mod: Module, fn: ast.AST, e: ast.AST, depth: int = 0)
 
 def is_static(fn: ast.AST) -> bool:
     return any(norm(d).split(".")[-1] == "staticmethod" for d in getattr(fn, "decorator_list", []))
+
+
+# ------------------------------------------------------------------------------------------------ roles found from what a public method writes
+def template_texts(e: ast.AST) -> Optional[tuple]:
+    """(constant text, [interpolated expressions]) of an expression that assembles a string around values, in any spelling: `T % x`, an f-string,
+    `T.format(..)`, a `+` chain with at least one string constant.  None: e is not such an expression."""
+    if isinstance(e, ast.JoinedStr):
+        slots = [v.value for v in e.values if isinstance(v, ast.FormattedValue)]
+        return ("".join(v.value for v in e.values if isinstance(v, ast.Constant) and isinstance(v.value, str)), slots) if slots else None
+    if isinstance(e, ast.BinOp) and isinstance(e.op, ast.Mod) and isinstance(e.left, ast.Constant) and isinstance(e.left.value, str):
+        return e.left.value, (list(e.right.elts) if isinstance(e.right, ast.Tuple) else [e.right])
+    if isinstance(e, ast.Call) and isinstance(e.func, ast.Attribute) and e.func.attr in ("format", "format_map") and isinstance(e.func.value, ast.Constant) \
+            and isinstance(e.func.value.value, str):
+        return e.func.value.value, list(e.args) + [k.value for k in e.keywords]
+    if isinstance(e, ast.BinOp) and isinstance(e.op, ast.Add):
+        leaves = add_leaves(e)
+        consts = [x for x in leaves if isinstance(x, ast.Constant) and isinstance(x.value, str)]
+        rest = [x for x in leaves if not isinstance(x, ast.Constant)]
+        return ("".join(c.value for c in consts), rest) if consts and rest else None
+    return None
+
+
+def producers_of_written_text(mod: Module, fn: ast.AST, methods: dict, is_the_text) -> Optional[list]:
+    """the methods of the class (names, in order of discovery) whose results end up in the text that `fn` assembles around a template chosen by
+    `is_the_text(constant text of the template)`: the interpolated values are followed backwards through the loops they are drawn from (a `for` target of an
+    enclosing loop stands for the iterable) and the locals they are bound to in fn, to calls `self.m(..)`; methods those call through self belong to them.
+    None: fn assembles no such text.  The methods are found by this role, not by their names."""
+    todo: list = []
+    found_site = False
+    for n in own_nodes(fn):
+        tt = template_texts(n)
+        if tt is None or not is_the_text(tt[0]):
+            continue
+        found_site = True
+        todo.extend(tt[1])
+        loop_targets = {}
+        for p in mod.parents(n):
+            if isinstance(p, (ast.For, ast.AsyncFor)):
+                for x in ast.walk(p.target):
+                    if isinstance(x, ast.Name):
+                        loop_targets.setdefault(x.id, p.iter)
+            elif isinstance(p, ast.comprehension):
+                pass
+            if p is fn:
+                break
+        for s_ in tt[1]:
+            for x in ast.walk(s_):
+                if isinstance(x, ast.Name) and x.id in loop_targets:
+                    todo.append(loop_targets[x.id])
+    if not found_site:
+        return None
+    out: list = []
+
+    def add_calls(scope_fn: ast.AST, exprs: list, depth: int) -> None:
+        for e in exprs:
+            for v in closure_exprs(scope_fn, e):
+                for c in ast.walk(v):
+                    if isinstance(c, ast.Call) and isinstance(c.func, ast.Attribute) and isinstance(c.func.value, ast.Name) and c.func.value.id == "self" \
+                            and c.func.attr in methods and c.func.attr not in out:
+                        out.append(c.func.attr)
+                        if depth < 3:
+                            m = methods[c.func.attr]
+                            add_calls(m, [x for x in own_nodes(m) if isinstance(x, ast.Call)], depth + 1)
+
+    add_calls(fn, todo, 0)
+    return out
